@@ -10,6 +10,7 @@ mod shrink;
 mod simrng;
 mod spec;
 mod sweep;
+mod tasks;
 mod types;
 
 use exec::Counters;
@@ -89,14 +90,15 @@ struct Agg {
     draws: u64,
     nontrivial_runs: u64,
     per_type: BTreeMap<String, u64>,
-    per_mode: [u64; 5],
+    per_mode: [u64; 7],
+    interleavings: HashSet<u64>,
     infallible_runs: u64,
     failing: Vec<(u64, String, String)>, // run index, class, type
 }
 
 impl Agg {
     fn new() -> Agg {
-        Agg { counters: Counters::new(), states: BTreeSet::new(), distinct: HashSet::new(), fp_xor: 0, fp_sum: 0, runs: 0, calls: 0, draws: 0, nontrivial_runs: 0, per_type: BTreeMap::new(), per_mode: [0; 5], infallible_runs: 0, failing: Vec::new() }
+        Agg { counters: Counters::new(), states: BTreeSet::new(), distinct: HashSet::new(), fp_xor: 0, fp_sum: 0, runs: 0, calls: 0, draws: 0, nontrivial_runs: 0, per_type: BTreeMap::new(), per_mode: [0; 7], interleavings: HashSet::new(), infallible_runs: 0, failing: Vec::new() }
     }
     fn merge(&mut self, o: Agg) {
         for (k, v) in o.counters {
@@ -113,21 +115,55 @@ impl Agg {
         for (k, v) in o.per_type {
             *self.per_type.entry(k).or_insert(0) += v;
         }
-        for i in 0..5 {
+        for i in 0..7 {
             self.per_mode[i] += o.per_mode[i];
         }
+        self.interleavings.extend(o.interleavings);
         self.infallible_runs += o.infallible_runs;
         self.failing.extend(o.failing);
+    }
+}
+
+/// fold one executed run into the aggregate
+fn absorb(a: &mut Agg, run: u64, spec: &RunSpec, r: exec::RunResult) {
+    a.runs += 1;
+    a.calls += r.calls;
+    a.draws += r.draws;
+    a.fp_xor ^= r.fingerprint.rotate_left((run % 63) as u32);
+    a.fp_sum = a.fp_sum.wrapping_add(r.fingerprint.wrapping_mul(run | 1));
+    if r.nontrivial {
+        a.nontrivial_runs += 1;
+        a.distinct.insert(r.fingerprint);
+    }
+    for (k, v) in r.counters {
+        *a.counters.entry(k).or_insert(0) += v;
+    }
+    a.states.extend(r.states);
+    *a.per_type.entry(spec.ty.clone()).or_insert(0) += 1;
+    a.per_mode[(spec.mode as usize).min(6)] += 1;
+    if let Some(t) = r.interleaving {
+        a.interleavings.insert(t);
+    }
+    if spec.infallible {
+        a.infallible_runs += 1;
+    }
+    for v in r.violations.iter() {
+        a.failing.push((run, v.class.to_string(), spec.ty.clone()));
     }
 }
 
 fn explore(menu: &[Box<dyn TyObj>], seed: u64, from: u64, to: u64, threads: usize) -> Agg {
     let next = AtomicU64::new(from);
     let total = Mutex::new(Agg::new());
+    // Interleaved-tasks runs are set aside and executed afterwards with no other worker running: their oracle is
+    // about state hidden in the code under test, and such state would be shared with the other workers' calls.
+    // Executed alone, a tasks run is a pure function of its spec even then (tasks.rs), so what it reports replays.
+    let deferred: Mutex<Vec<u64>> = Mutex::new(Vec::new());
     std::thread::scope(|s| {
         for _ in 0..threads {
             s.spawn(|| {
                 let mut a = Agg::new();
+                let mut mine = Vec::new();
                 loop {
                     let i = next.fetch_add(64, Ordering::Relaxed);
                     if i >= to {
@@ -135,36 +171,36 @@ fn explore(menu: &[Box<dyn TyObj>], seed: u64, from: u64, to: u64, threads: usiz
                     }
                     for run in i..(i + 64).min(to) {
                         let spec = gen::make_run(seed, run, menu);
+                        if !spec.tasks.is_empty() {
+                            mine.push(run);
+                            continue;
+                        }
                         let ty = by_name(menu, &spec.ty).unwrap();
                         let r = exec::run(&spec, ty, false);
-                        a.runs += 1;
-                        a.calls += r.calls;
-                        a.draws += r.draws;
-                        a.fp_xor ^= r.fingerprint.rotate_left((run % 63) as u32);
-                        a.fp_sum = a.fp_sum.wrapping_add(r.fingerprint.wrapping_mul(run | 1));
-                        if r.nontrivial {
-                            a.nontrivial_runs += 1;
-                            a.distinct.insert(r.fingerprint);
-                        }
-                        for (k, v) in r.counters {
-                            *a.counters.entry(k).or_insert(0) += v;
-                        }
-                        a.states.extend(r.states);
-                        *a.per_type.entry(spec.ty.clone()).or_insert(0) += 1;
-                        a.per_mode[spec.mode as usize] += 1;
-                        if spec.infallible {
-                            a.infallible_runs += 1;
-                        }
-                        for v in r.violations.iter() {
-                            a.failing.push((run, v.class.to_string(), spec.ty.clone()));
-                        }
+                        absorb(&mut a, run, &spec, r);
                     }
                 }
                 total.lock().unwrap().merge(a);
+                deferred.lock().unwrap().extend(mine);
             });
         }
     });
     let mut t = total.into_inner().unwrap();
+    let mut d = deferred.into_inner().unwrap();
+    d.sort_unstable();
+    let dbg = std::env::var("VERIF_DEBUG").is_ok();
+    if dbg {
+        eprintln!("parallel phase done; {} deferred tasks runs", d.len());
+    }
+    for run in d {
+        if dbg {
+            eprintln!("tasks run {}", run);
+        }
+        let spec = gen::make_run(seed, run, menu);
+        let ty = by_name(menu, &spec.ty).unwrap();
+        let r = exec::run(&spec, ty, false);
+        absorb(&mut t, run, &spec, r);
+    }
     t.failing.sort();
     t
 }
@@ -311,28 +347,45 @@ fn cmd_run(args: &[String]) -> i32 {
         harness_errors.push(format!("determinism self-test failed: {} runs gave different fingerprints with 1 and 3 workers", dn));
     }
 
-    // report the first failing runs (lowest run index first), one per (class, type) signature, minimised
+    // report the first failing runs (lowest run index first), one per (class, type) signature, minimised. A
+    // candidate whose minimised spec does not reproduce single-threaded is skipped (it is listed, and becomes a
+    // harness error only if nothing at all could be reported): failures that come and go are what state hidden in
+    // the code under test and shared between the worker threads looks like, and the interleaved-tasks runs — executed
+    // alone, hence reproducible — are then the ones that can be reported.
     let mut seen = BTreeSet::new();
     let mut reported = 0;
-    for (run, class, ty) in agg.failing.iter() {
+    let mut attempts = 0;
+    let mut unreproduced: Vec<String> = Vec::new();
+    let mut order: Vec<&(u64, String, String)> = agg.failing.iter().collect();
+    // stable: interleaved-tasks classes first when present
+    order.sort_by_key(|(_, class, _)| if class == "schedule_dependence" || class == "order_dependence" { 0 } else { 1 });
+    for (run, class, ty) in order {
         if !seen.insert((class.clone(), ty.clone())) {
             continue;
         }
-        if reported >= 6 {
+        if reported >= 6 || attempts >= 48 {
             break;
         }
-        reported += 1;
+        attempts += 1;
         let spec = gen::make_run(seed, *run, &menu);
+        if std::env::var("VERIF_DEBUG").is_ok() {
+            eprintln!("shrinking run {} class {} type {} mode {}", run, class, ty, spec.mode);
+        }
         let mut sh = shrink::Shrinker { menu: &menu, class: class.clone(), execs: 0, max_execs: 4000 };
         let small = sh.shrink(&spec);
         let tyo = by_name(&menu, &small.ty).unwrap();
         let rr = exec::run(&small, tyo, false);
         let Some(v) = rr.violations.iter().find(|v| v.class == class.as_str()) else {
-            harness_errors.push(format!("run {} ({}): minimised spec does not reproduce", run, class));
+            unreproduced.push(format!("run {} ({}): minimised spec does not reproduce", run, class));
             continue;
         };
-        let path = write_run_replay(&small, class, &v.detail, seed, *run, &format!("minimised from {} op(s) / {} call(s) in {} executions", spec.ops.len(), spec.ops.iter().map(|o| o.calls.len()).sum::<usize>(), sh.execs));
+        reported += 1;
+        let planned: usize = spec.ops.iter().map(|o| o.calls.len()).sum::<usize>() + spec.tasks.iter().map(|t| t.ops.iter().map(|o| o.calls.len()).sum::<usize>()).sum::<usize>();
+        let path = write_run_replay(&small, class, &v.detail, seed, *run, &format!("minimised from {} op(s) / {} call(s) in {} executions", spec.ops.len() + spec.tasks.iter().map(|t| t.ops.len()).sum::<usize>(), planned, sh.execs));
         violations.push(J::obj().set("class", J::s(class)).set("type", J::s(&small.ty)).set("detail", J::s(&v.detail)).set("replay", J::s(&path)).set("build", J::s(BUILD)).set("kind", J::s("run")));
+    }
+    if reported == 0 {
+        harness_errors.extend(unreproduced.iter().cloned());
     }
 
     // ---- complete word-space sweeps -----------------------------------------------------------------
@@ -398,8 +451,8 @@ fn cmd_run(args: &[String]) -> i32 {
     // ---- samples for the evidence file --------------------------------------------------------------
     // one small run of every mode (mixed with faults, cluster, fault-free twin, fibre walk, span probe), written out
     let mut samples = Vec::new();
-    let mode_names = ["mixed_with_faults", "cluster", "fault_free_twin", "fibre_walk", "span_probe"];
-    for mode in 0u8..5 {
+    let mode_names = ["mixed_with_faults", "cluster", "fault_free_twin", "fibre_walk", "span_probe", "census", "interleaved_tasks"];
+    for mode in 0u8..7 {
         for k in 0..t.runs.min(5000) {
             let run = from + k;
             let spec = gen::make_run(seed, run, &menu);
@@ -407,7 +460,8 @@ fn cmd_run(args: &[String]) -> i32 {
             let planned: usize = spec.ops.iter().map(|o| o.calls.len()).sum();
             let small = match mode {
                 1 => planned <= 60 && ty.bytes() <= 16,
-                3 | 4 => ty.bytes() <= 16,
+                3 | 4 | 5 => ty.bytes() <= 16,
+                6 => spec.tasks.iter().map(|t| t.ops.iter().map(|o| o.calls.len()).sum::<usize>()).sum::<usize>() <= 10,
                 _ => planned <= 12 && ty.bytes() <= 32,
             };
             if spec.mode != mode || !small {
@@ -456,7 +510,7 @@ fn cmd_run(args: &[String]) -> i32 {
     // with a different structure (say, a descending modulo mapping) must not be made to look like a failure.
     let mut probes_at_zero: Vec<String> = Vec::new();
     if t.runs >= 100_000 && violations.is_empty() {
-        for k in ["fault_rng_err", "fault_rng_partial_err", "fault_rng_panic", "op_gen", "op_gen_range", "op_sample_single", "op_uniform_sample", "op_fill", "op_fill_vs_elementwise", "op_fibre_walk", "op_span_probe"] {
+        for k in ["fault_rng_err", "fault_rng_partial_err", "fault_rng_panic", "op_gen", "op_gen_range", "op_sample_single", "op_uniform_sample", "op_fill", "op_fill_vs_elementwise", "op_fibre_walk", "op_span_probe", "op_census", "op_tasks_run", "probe_tasks_interleaved_mid_call", "probe_tasks_of_different_types"] {
             if agg.counters.get(k).copied().unwrap_or(0) == 0 {
                 harness_errors.push(format!("harness reach probe {} stuck at zero", k));
             }
@@ -465,7 +519,7 @@ fn cmd_run(args: &[String]) -> i32 {
             "fault_stall_repeat", "probe_rejection_then_accept", "probe_stall_recovered", "probe_full_range", "probe_signed_range_spans_zero", "probe_result_eq_low", "probe_result_eq_high",
             "probe_offset_carries_past_first_digit", "probe_err_propagated", "probe_err_surfaced_as_rand_panic", "probe_injected_panic_propagated", "probe_sampler_reused_after_panic",
             "probe_zero_length_fill", "probe_gen_refines_history", "probe_fill_refines_history", "probe_slice_equals_elementwise", "probe_fibre_at_bound", "r3_clusters_checked", "probe_accepted_word_is_function",
-            "probe_complete_fibres_counted", "fibre_walk_configs_compared", "probe_spans_measured", "span_probe_configs_compared",
+            "probe_complete_fibres_counted", "fibre_walk_configs_compared", "probe_spans_measured", "span_probe_configs_compared", "probe_census_all_values_seen", "probe_tasks_schedule_independent",
         ] {
             if agg.counters.get(k).copied().unwrap_or(0) == 0 {
                 probes_at_zero.push(k.to_string());
@@ -525,7 +579,9 @@ fn cmd_run(args: &[String]) -> i32 {
         .set("state_hashes", J::Arr(agg.states.iter().map(|x| J::Int(*x as i128)).collect()))
         .set("fingerprint_xor", J::s(&format!("{:016x}", agg.fp_xor)))
         .set("fingerprint_sum", J::s(&format!("{:016x}", agg.fp_sum)))
-        .set("runs_by_mode", J::obj().set("mixed_with_faults", J::Int(agg.per_mode[0] as i128)).set("cluster", J::Int(agg.per_mode[1] as i128)).set("fault_free_twin", J::Int(agg.per_mode[2] as i128)).set("fibre_walk", J::Int(agg.per_mode[3] as i128)).set("span_probe", J::Int(agg.per_mode[4] as i128)))
+        .set("runs_by_mode", J::obj().set("mixed_with_faults", J::Int(agg.per_mode[0] as i128)).set("cluster", J::Int(agg.per_mode[1] as i128)).set("fault_free_twin", J::Int(agg.per_mode[2] as i128)).set("fibre_walk", J::Int(agg.per_mode[3] as i128)).set("span_probe", J::Int(agg.per_mode[4] as i128)).set("census", J::Int(agg.per_mode[5] as i128)).set("interleaved_tasks", J::Int(agg.per_mode[6] as i128)))
+        .set("distinct_interleavings", J::Int(agg.interleavings.len() as i128))
+        .set("interleaving_hashes", J::Arr({ let mut v: Vec<u64> = agg.interleavings.iter().copied().collect(); v.sort_unstable(); v.into_iter().map(|x| J::Int(x as i128)).collect() }))
         .set("runs_rng_infallible_personality", J::Int(agg.infallible_runs as i128))
         .set("failing_runs", J::Int(agg.failing.len() as i128))
         .set("counters", counters)
@@ -537,6 +593,7 @@ fn cmd_run(args: &[String]) -> i32 {
         .set("samples", J::Arr(samples))
         .set("violations", J::Arr(violations.clone()))
         .set("harness_errors", J::Arr(harness_errors.iter().map(|s| J::s(s)).collect()))
+        .set("unreproduced_candidates", J::Arr(unreproduced.iter().take(20).map(|s| J::s(s)).collect()))
         .set("probes_at_zero", J::Arr(probes_at_zero.iter().map(|s| J::s(s)).collect()))
         .set("explore_wall_s", J::Float(t_explore))
         .set("sweep_wall_s", J::Float(t_sweep))
@@ -547,6 +604,9 @@ fn cmd_run(args: &[String]) -> i32 {
     }
     for h in &harness_errors {
         println!("HARNESS-ERROR {}", h);
+    }
+    if reported > 0 && !unreproduced.is_empty() {
+        println!("NOTE {} failing run(s) did not reproduce when re-executed alone (first: {}) — results that come and go point at state shared between callers", unreproduced.len(), unreproduced[0]);
     }
     for k in &probes_at_zero {
         println!("NOTE structure-dependent probe {} is at zero: the corresponding oracle found nothing to apply to", k);
